@@ -799,6 +799,40 @@ def run(chk, facts, tier, only=None):
             ls = value_leaves(e)
             return bool(ls) and all(l.get("k") == "call" and (callee(l) or "") == TI + "Var" for l in ls)
 
+        # `path.last() == Some(TypePath::Id(_))` is how nominalize recognises "the body of a definition / a method of a service": the one
+        # place where a composite type may stay inline.  So TypePath::Id may only be created as the root of a fresh path (a definition) or
+        # for a method of a service; pushed anywhere else (an init argument, a field) it stops the type below from being given a name,
+        # and pp_ty then meets a constructor it declares unreachable.
+        ALLOWED_ID_SITES = {("nominalize", "Record", "root"), ("nominalize", "Variant", "root"), ("nominalize", "Func", "root"),
+                            ("nominalize", "Service", "root"), ("nominalize", "Service", "push"), ("nominalize_all", "-", "root")}
+        n_id = 0
+        for g in cp.fns(RS):
+            if g.get("body") is None:
+                continue
+            par = None
+            for x in walk(g["body"]):
+                if x.get("k") == "call" and (callee(x) or "") == TP + "Id":
+                    par = par or parent_map(g["body"])
+                    n_id += 1
+                    how, arm = "other", "-"
+                    for a in ancestors(x, par):
+                        if how == "other" and a.get("k") == "mcall" and a["m"] == "push":
+                            how = "push"
+                        if how == "other" and (a.get("k") == "array" or (a.get("k") == "call" and re.search(r"(into_vec|box_new|Box::.*new|vec::from_elem)", callee(a) or ""))):
+                            how = "root"
+                        if a.get("k") == "match" and re.search(r"TypeInner$", a.get("sty", "")):
+                            for am in a["arms"]:
+                                if contains(am["body"], x):
+                                    hs = [short(v) for v in pat_variants(am["pat"]) if (v or "").startswith(TI)]
+                                    arm = hs[0] if hs else "_"
+                            break
+                    site = (g["name"], arm, how)
+                    chk.expect(site in ALLOWED_ID_SITES, f"typepath-id:{site[0]}/{site[1]}/{site[2]}",
+                               f"{g['key']}: TypePath::Id is created at {site} — outside the reviewed places (root of a definition's path, method of a "
+                               f"service). nominalize keeps a composite type inline when the path ends in Id, so the type below this site is not "
+                               f"given a name and reaches pp_ty, which panics for Func/Service and for variants that are not results",
+                               where=f"{g['span']['file']}:{x.get('ln')}", ok_detail="reviewed site")
+        chk.floor("constructions of TypePath::Id", n_id, 6)
         for X in ("Func", "Service"):
             rows = [r for r in arm_rows(nm) if ti_heads(r) == [X]]
             if len(rows) != 1:
